@@ -134,7 +134,9 @@ _un = {
 }
 for fn, d in _un.items():
     T('%s(A)' % fn, 'A', (lambda r, fn=fn: getattr(algopy, fn)(r)), dom=d, tags=('elem',))
-_sp = {'erf': None, 'erfi': None, 'dawsn': None, 'logit': inside(0, 0.1, 0.9), 'expit': None, 'gammaln': pos(0, 0.2),
+# dawsn: F' = 1 - 2 x F cancels for large |x| (relative loss ~ x^2 eps per order, in forward mode as well): the oracle's
+# tolerance is meaningful for moderate arguments only
+_sp = {'erf': None, 'erfi': inside(0, -6.0, 6.0), 'dawsn': inside(0, -8.0, 8.0), 'logit': inside(0, 0.1, 0.9), 'expit': None, 'gammaln': pos(0, 0.2),
        'psi': pos(0, 0.2)}
 for fn, d in _sp.items():
     T('%s(A)' % fn, 'A', (lambda r, fn=fn: getattr(sp, fn)(r)), dom=d, tags=('elem',))
